@@ -61,14 +61,14 @@ From EV Require Import Proofs.ShortPage Proofs.SearchGuarded Proofs.ClosedFinal.
 (* THE CLOSED THEOREM: premises are conditions on the text only (see Props/C02.v for their meaning); the guarded
    DEFENDANT_YEAR contract is proved for the engine (C17_engine_defyear_guarded) *)
 Theorem C17_closed_metadata : forall this_year s l,
-  s <> s_eyecite -> ws_clean is_space_gen s -> odd_short_rows_silent s ->
+  s <> s_eyecite -> ws_clean is_space_gen s ->
   get_citations_closed this_year s false = Ok l ->
   Forall (meta_ok s l) l.
 Proof. exact closed_metadata_final. Qed.
 Print Assumptions C17_closed_metadata.
 
 Theorem C17_closed_metadata_any_option : forall this_year s ra l,
-  s <> s_eyecite -> ws_clean is_space_gen s -> odd_short_rows_silent s ->
+  s <> s_eyecite -> ws_clean is_space_gen s ->
   get_citations_closed this_year s ra = Ok l ->
   exists l0, get_citations_closed this_year s false = Ok l0 /\
              (forall c, In c l -> In c l0) /\ Forall (meta_ok s l0) l.
